@@ -71,7 +71,7 @@ def run(ctx):
                     'all small tables: inlets before = outlets after. Real helpers: histories of 10 calls over 5 streams + one two-phase stream: mix_and_split, '
                     'phase_split, adjust_moisture_content (strict / lenient, sufficient / insufficient water), partition (K over six decades, forced top / bottom '
                     'chemicals, outlets with previous content), vle / lle wrappers (with multi-stream copy, efficiency), chemical_splits, material_balance')
-    return 'model_checking', cov, ASSUME
+    return 'exploration', cov, ASSUME
 
 
 def replay(ctx, data):
